@@ -11,7 +11,7 @@ func SeqProfileFor(name string, seed int64) SeqProfile {
 	p := SeqProfile{
 		Name: name, Capacity: caps[r.Intn(len(caps))], Transport: []string{"chan", "log"}[r.Intn(2)],
 		Prologue: prol[r.Intn(len(prol))], Steps: 25, MaxBody: 3,
-		PInsert: 0.35, PDelete: 0.15, PRollback: 0.1, PFailIns: 0.1, PSchema: 0.1,
+		PInsert: 0.35, PDelete: 0.15, PRollback: 0.1, PFailIns: 0.1, PSchema: 0.1, PDelAll: 0.04,
 	}
 	numRepr := func() string { return NumericReprs[r.Intn(len(NumericReprs))] }
 	switch name {
